@@ -17,3 +17,24 @@ THEOREMS = {
 MODULES = {"C03": ["QuillModel.Props.C03Delivery"], "C10": ["QuillModel.Props.C10Replay"]} if _HAVE_A else {}
 OBLIG = ["QuillModel.Obligations.BackendW_C10"] if _HAVE_A else []
 OBLIG_BY_PROP = {"C10": ["QuillModel.Obligations.BackendW_C10"]} if _HAVE_A else {}
+# lift round (w2_lifts): the whole-log bound of Props/C10Replay.lean closed (Props/C10ReplayWhole.lean, helpers
+# Backend/LiftRing{Pot,Pop,Top}.lean: new bundle-A Closed instance InvRg — log writes + ring potential <= pops)
+if _HAVE_A:
+    THEOREMS["C10"] += ["Backend.C10_ring_potential", "Backend.C10_log_at_most_once_any_level",
+                        "Backend.C10_backtrace_at_most_once_per_flush", "Backend.C10_nothing_handed_before_pop",
+                        "Backend.C10_backtrace_once_or_never", "Backend.c10ReplayInit_start",
+                        "Backend.C10_whole_bound_false_pinned", "Backend.PA.InvRg.closed"]
+    MODULES["C10"] += ["QuillModel.Props.C10ReplayWhole"]
+# lift round (w2_lifts), C03: delivery composed with the pop-time dispatch into an equality over whole runs
+# (Props/C03Whole.lean, helpers Backend/LiftOnce{,Nodup}.lean: bundle-A Closed instance WInv), and the loop fuel of
+# `readQueue` (Props/C03ReadFuel.lean, helpers Backend/LiftFuel{,Front}.lean: fuel monotonicity, sufficiency under the
+# decidable premise `site3Ops table <= 63`, observable exhaustion `populateObs`, exhaustion witnesses)
+if _HAVE_A:
+    THEOREMS["C03"] += ["Backend.C03_whole_run_count", "Backend.C03_dispatchCount_le_one", "Backend.C03_dispatchCount_eq_one_iff",
+                        "Backend.C03_exactly_once_after_drain", "Backend.C03_exactly_once_after_drain_nodup",
+                        "Backend.c03TightInit_fresh", "Backend.PA.WInv.closed",
+                        "Backend.C03_read_fuel_mono", "Backend.C03_read_fuel_quiet", "Backend.C03_read_fuel_budget",
+                        "Backend.C03_read_fuel_no_site3", "Backend.C03_read_fuel_sufficient", "Backend.populateObs_fst",
+                        "Backend.C03_fuel_never_exhausted", "Backend.C03_pollFuelOK", "Backend.C03_read_fuel_exhaustible",
+                        "Backend.C03_read_fuel_exhaustible_populate"]
+    MODULES["C03"] += ["QuillModel.Props.C03Whole", "QuillModel.Props.C03ReadFuel"]
